@@ -563,7 +563,7 @@ def eq(I, a, b, node=None):
             if a.cls is not b.cls:
                 return False
             return _and([eq(I, a.fields[fd.name], b.fields[fd.name], node) for fd in a.cls.dc_fields if fd.compare])
-        if a.cls.name in ("IPv4Address", "IPv6Address") and a.cls.builtin:
+        if a.cls.name in ("IPv4Address", "IPv6Address", "IPText") and a.cls.builtin:
             if a.cls is not b.cls:
                 return False
             return eq(I, a.fields["packed"], b.fields["packed"], node)
